@@ -14,8 +14,8 @@ from vf.common.harness import Result
 ID = "C16"
 KEYS = ["a", "b", "c", "d"]
 RULE = (
-    "Histories (6-30 steps) over a forest of streams on 1-2 datasets (untyped, and typed with a MetaData-adding "
-    "callback): QMetaData with 0-3 keys from a 4-key pool (new key, repeated key with equal/different value, "
+    "Histories (6-30 steps) over a forest of streams on 1-3 roots (untyped dataset, typed dataset with a MetaData-adding "
+    "callback, a bare ObjectStream over a Name node): QMetaData with 0-3 keys from a 4-key pool (new key, repeated key with equal/different value, "
     "consecutive calls, on roots and derived streams), Select/Where/SelectMany/MetaData/result terminals, branching "
     "from any earlier stream, value(). Model = per-stream dict (parent's dict updated by own call); invariant after "
     "every step over all streams x all keys. Non-trivial = >=2 QMetaData calls on one derivation path with an earlier "
@@ -58,7 +58,7 @@ def _op(draw):
 
 @st.composite
 def _case(draw, maxlen):
-    return {"roots": draw(st.integers(1, 2)), "ops": draw(st.lists(_op(), min_size=6, max_size=maxlen))}
+    return {"roots": draw(st.sampled_from([1, 2, 2, 3])), "ops": draw(st.lists(_op(), min_size=6, max_size=maxlen))}
 
 
 def strategy(tier):
@@ -108,6 +108,10 @@ def check(case) -> Result:
     streams = []
     for i in range(case["roots"]):
         typed = i == 1
+        if i == 2:
+            # a root that is not an EventDataset: a bare ObjectStream over a Name node (no executor; lookups must work all the same)
+            streams.append([ObjectStream(ast.Name(id="e", ctx=ast.Load())), ObjectStream(ast.Name(id="e", ctx=ast.Load())), {}, None, []])
+            continue
         streams.append([DS(typed), DS(typed), {}, None, []])
     n_qmd = 0
     branch = False
@@ -169,6 +173,8 @@ def check(case) -> Result:
             else:  # value
                 root_r = _root(streams, on, 0)
                 root_t = _root(streams, on, 1)
+                if not isinstance(root_r, DS):
+                    continue  # derived from the bare root: nothing can execute it
                 nr, nt = len(root_r.got), len(root_t.got)
                 run_coro(real.value_async(title=op["title"]))
                 run_coro(twin.value_async(title=op["title"]))
@@ -205,8 +211,10 @@ def check(case) -> Result:
         r.labels.append("branch")
     if interesting_path:
         r.labels.append("earlier-key-not-repeated")
-    if case["roots"] == 2:
+    if case["roots"] >= 2:
         r.labels.append("typed-root-present")
+    if case["roots"] == 3:
+        r.labels.append("bare-name-root-present")
     r.nontrivial = interesting_path and branch
     return r
 
